@@ -577,6 +577,41 @@ def slot_requirements(tpl: List[object]) -> List[Tuple[Slot, str]]:
     return res
 
 
+def is_int_text(e: ast.AST, scope: ast.AST, depth: int = 0) -> bool:
+    """Text made only of integer declaration parameters (`X.params()[k]`), digits and commas - what may stand inside a `{m,n}` quantifier."""
+    if depth > 4:
+        return False
+    e = strip_casts(e)
+    if isinstance(e, ast.Constant):
+        return isinstance(e.value, int) or (isinstance(e.value, str) and _re.fullmatch(r"[0-9,]*", e.value) is not None)
+    if isinstance(e, ast.Subscript) and isinstance(e.slice, ast.Constant):
+        b = e.value
+        if isinstance(b, ast.Call) and isinstance(b.func, ast.Attribute) and b.func.attr == "params" and not b.args:
+            return True
+        if isinstance(b, ast.Name):
+            v = single_assignment_in(scope, b.id)
+            return v is not None and isinstance(v, ast.Call) and isinstance(v.func, ast.Attribute) and v.func.attr == "params" and not v.args
+        return False
+    if isinstance(e, ast.JoinedStr):
+        return all(is_int_text(v.value if isinstance(v, ast.FormattedValue) else v, scope, depth + 1) for v in e.values)
+    if isinstance(e, ast.IfExp):
+        return is_int_text(e.body, scope, depth + 1) and is_int_text(e.orelse, scope, depth + 1)
+    if isinstance(e, ast.BinOp) and isinstance(e.op, ast.Add):
+        return is_int_text(e.left, scope, depth + 1) and is_int_text(e.right, scope, depth + 1)
+    if isinstance(e, ast.Name):
+        v = single_assignment_in(scope, e.id)
+        return v is not None and is_int_text(v, scope, depth + 1)
+    if isinstance(e, ast.Call) and call_name(e) == "str" and len(e.args) == 1:
+        return is_int_text(e.args[0], scope, depth + 1)
+    return False
+
+
+def single_assignment_in(scope: ast.AST, name: str):
+    """value of the only plain assignment `name = value` anywhere below `scope` (closures read the handler's locals)"""
+    found = [a for a in ast.walk(scope) if isinstance(a, ast.Assign) and len(a.targets) == 1 and isinstance(a.targets[0], ast.Name) and a.targets[0].id == name]
+    return found[0].value if len(found) == 1 else None
+
+
 def rule_r4_r5(ctx):
     fn, t, handlers = handlers_table_cached(ctx)
     module = module_of(fn)
@@ -629,8 +664,8 @@ def rule_r4_r5(ctx):
             is_child = (isinstance(e, ast.Subscript) and isinstance(e.value, ast.Name) and e.value.id == p) or (
                 isinstance(e, ast.Call) and isinstance(e.func, ast.Attribute) and e.func.attr == "join"
             ) or (isinstance(e, ast.Call) and call_name(e) == "expr.params") or (isinstance(e, ast.Subscript) and nsrc(e.value) == "expr.params()")
-            if isinstance(e, ast.Subscript) and nsrc(e.value) == "expr.params()":
-                ctx.ok("R4-regex-compose", construct, key, site(node), "loop bound parameter (integer)")
+            if is_int_text(e, dict(handlers).get(name, fn)):
+                ctx.ok("R4-regex-compose", construct, key, site(node), "loop bound parameter(s) (integers and commas only)")
                 continue
             if not is_child:
                 ctx.viol("R4-regex-compose", construct, key, site(node), "regex slot receives text that is neither a child regex nor re.escape()d (category RAW)")
@@ -878,8 +913,106 @@ def _lossy_print(e: ast.AST, z3_params, lossy_names) -> bool:
     return False
 
 
+def rule_r9(ctx, prefix="R9", only_functions=None):
+    """Parameters of a Z3 declaration (`decl.params()`): `(_ re.loop lo hi)` has an OPTIONAL upper bound and `(_ re.^ n)` one parameter, so
+    `params()[k]` for k >= 1 needs a length fact; index 0 is always present for the parameterised regex operators."""
+    import re as _re2
+
+    m = ctx.repo.module(Z3H, f"C05.{prefix}")
+    n = 0
+    for q, fn in m.functions():
+        if only_functions is not None and q.split(".")[0] not in only_functions:
+            continue
+        if not isinstance(fn, (ast.FunctionDef, ast.Lambda)) or "." in q and not isinstance(fn, ast.FunctionDef):
+            continue
+        aliases = {}
+        for a in ast.walk(fn):
+            if isinstance(a, ast.Assign) and len(a.targets) == 1 and isinstance(a.targets[0], ast.Name) and isinstance(a.value, ast.Call) and isinstance(a.value.func, ast.Attribute) and a.value.func.attr == "params" and not a.value.args:
+                aliases[a.targets[0].id] = src(a.value)
+        for sub in ast.walk(fn):
+            if not (isinstance(sub, ast.Subscript) and isinstance(sub.ctx, ast.Load) and isinstance(sub.slice, ast.Constant) and isinstance(sub.slice.value, int)):
+                continue
+            base = sub.value
+            is_params = (isinstance(base, ast.Call) and isinstance(base.func, ast.Attribute) and base.func.attr == "params" and not base.args) or (isinstance(base, ast.Name) and base.id in aliases)
+            if not is_params:
+                continue
+            if enclosing_function_of(sub) is not fn and not isinstance(enclosing_function_of(sub), ast.Lambda):
+                continue
+            n += 1
+            k = sub.slice.value
+            construct = f"{Z3H}:{q}"
+            if k == 0:
+                ctx.ok(f"{prefix}-decl-params", construct, f"{src(sub)}", site(sub), "first parameter of a parameterised operator always exists")
+                continue
+            b = src(base)
+            fs = facts(sub)
+            ok = False
+            for f_ in fs:
+                t = f_.text
+                mm = _re2.fullmatch(r"len\((.+)\) (>|>=|==) (\d+)", t)
+                if mm and mm.group(1) == b and f_.positive:
+                    lim = int(mm.group(3))
+                    ok = ok or (mm.group(2) == ">" and lim >= k) or (mm.group(2) == ">=" and lim >= k + 1) or (mm.group(2) == "==" and lim >= k + 1)
+            ctx.check(ok, f"{prefix}-decl-params", construct, f"IndexError: {src(sub)}", site(sub),
+                      f"`{src(sub)}` assumes the declaration has {k + 1} parameters; `((_ re.loop 2) r)` (no upper bound), which Z3 and the ISLa parser accept, has one: IndexError instead of an answer",
+                      f"guarded by len({b}) > {k}")
+    ctx.inventory[f"{prefix}_decl_param_sites"] = n
+    if n < 2 and only_functions is None:
+        raise Unrecognised(f"C05.{prefix}", Z3H, f"only {n} params() index sites found (expected >= 2)")
+
+
+def rule_r10(ctx):
+    """str.to.int: SMT-LIB (and Z3) map every string that is not a non-empty sequence of ASCII digits to -1 - also signed numerals such as "-5" or "+1",
+    which the property does NOT exclude. The handler must not hand such strings to Python's int()."""
+    f = ctx.repo.func(Z3H, "evaluate_z3_str_to_int", "C05.R10")
+    c = f"{Z3H}:evaluate_z3_str_to_int"
+    ctor = next((n for n in ast.walk(f) if isinstance(n, ast.FunctionDef) and n is not f), None)
+    if ctor is None:
+        raise Unrecognised("C05.R10", c, "constructor closure not found")
+    convs = [x for x in calls_in(ctor) if call_name(x) == "int" and len(x.args) == 1 and isinstance(x.args[0], ast.Name)]
+    if not convs:
+        raise Unrecognised("C05.R10", c, "int(<string>) conversion not found")
+    for x in convs:
+        a = x.args[0].id
+        fs = facts(x)
+        digit_guard = any(f_.positive and (f_.text in (f"{a}.isdigit()", f"{a}.isdecimal()", f"{a}.isascii() and {a}.isdigit()") or ("fullmatch" in f_.text and a in f_.text)) for f_ in fs)
+        ctx.check(digit_guard, "R10-str-to-int-numerals", c, f"int({a}) only for digit strings", site(x),
+                  f"`int({a})` converts signed numerals by value: (= (str.to.int \"-5\") (- 5)) is judged TRUE and (= (str.to.int \"+1\") 1) TRUE, while Z3 (SMT-LIB: -1 for every string that is not "
+                  "a sequence of digits) judges both false; signed numerals are inside the property's fragment", "guarded by a digits-only test, -1 otherwise")
+
+
+def rule_r11(ctx):
+    """re.loop: Python's `{m,n}` quantifier raises re.error for m > n (SMT-LIB: empty language) - the quantifier may only be emitted when the bounds are ordered."""
+    f = ctx.repo.func(Z3H, "evaluate_z3_re_loop", "C05.R11")
+    c = f"{Z3H}:evaluate_z3_re_loop"
+    n = 0
+    for lam in [x for x in ast.walk(f) if isinstance(x, ast.Lambda)]:
+        js = [j for j in ast.walk(lam.body) if isinstance(j, ast.JoinedStr)]
+        text = "".join(p.value for j in js for p in j.values if isinstance(p, ast.Constant) and isinstance(p.value, str))
+        if "{" not in text:
+            continue
+        n += 1
+        fs = facts(lam)
+        ordered = any((not f_.positive and "params[1] < params[0]" in f_.text) or (f_.positive and ("params[0] <= params[1]" in f_.text or "params[1] >= params[0]" in f_.text)) for f_ in fs)
+        ctx.check(ordered, "R11-loop-bounds-ordered", c, "{m,n} quantifier only for m <= n", site(lam),
+                  "the fragment `(...){lo,hi}` is emitted without excluding hi < lo: `((_ re.loop 2 1) r)` (empty language in SMT-LIB) makes re.compile raise 'min repeat greater than max repeat' "
+                  "instead of the atom being answered", "dominated by not (params[1] < params[0])")
+    if n != 1:
+        raise Unrecognised("C05.R11", c, f"expected one quantifier-emitting constructor (found {n})")
+
+
+def enclosing_function_of(node):
+    cur = getattr(node, "_parent", None)
+    while cur is not None and not isinstance(cur, (ast.FunctionDef, ast.AsyncFunctionDef, ast.Lambda)):
+        cur = getattr(cur, "_parent", None)
+    return cur
+
+
 def run(ctx) -> str:
     _cache.clear()
+    ctx.guarded("R9", lambda: rule_r9(ctx))
+    ctx.guarded("R10", lambda: rule_r10(ctx))
+    ctx.guarded("R11", lambda: rule_r11(ctx))
     ctx.guarded("R7", lambda: rule_r7(ctx))
     from . import c17
 
